@@ -32,9 +32,9 @@ from harness import tlc as tlcmod
 from harness import tla_values
 
 VERIF = tlcmod.VERIF
-SITES = ["dmCopy", "iterInit", "gcPrivate", "closedDir", "ompRound"]
-SITE_DEFECT = dict(dmCopy="D1", iterInit="D13", gcPrivate="D14", closedDir="D18", ompRound="D19")
-RELEVANT = dict(qpoints={"dmCopy", "ompRound"}, mesh={"ompRound"}, itermesh={"iterInit", "gcPrivate"},
+SITES = ["dmCopy", "iterInit", "gcPrivate", "closedDir", "ompRound", "iterFactor"]
+SITE_DEFECT = dict(dmCopy="D1", iterInit="D13", gcPrivate="D14", closedDir="D18", ompRound="D19", iterFactor="IterMesh drops factor")
+RELEVANT = dict(qpoints={"dmCopy", "ompRound"}, mesh={"ompRound"}, itermesh={"iterInit", "gcPrivate", "iterFactor"},
                 band={"closedDir"}, direct=set())
 INV = ["TypeOK", "UndefinedVariableFree", "InvNoError", "InvFreq", "InvEigvec", "InvDynmat", "InvGV",
        "InvGrid", "InvDiag", "InvSameOrder", "InvNoGarbage"]
@@ -65,7 +65,7 @@ def tla(v):
     raise TypeError(type(v))
 
 
-CFG_FIELDS = ["path", "kind", "omp", "nac", "dec", "wev", "wgv", "wdm", "conn", "dir", "shape", "meshlen", "gc", "qs"]
+CFG_FIELDS = ["path", "kind", "omp", "nac", "dec", "wev", "wgv", "wdm", "conn", "dir", "shape", "meshlen", "gc", "qs", "fac"]
 
 
 def event_json(e):
@@ -109,18 +109,24 @@ def mc_access(codes_expr, emit=False):
 def make_plan(ctx, cfgs):
     entries = ENTRIES_QUICK if ctx.quick else ENTRIES_THOROUGH
     cases = []
-    cfgs = sorted(cfgs, key=lambda c: json.dumps(c, sort_keys=True))
-    for k, c in enumerate(cfgs):
-        can_file = c["path"] in ("qpoints", "mesh", "band")
-        if ctx.quick:
-            combos = [(entries[(k + ctx.seed) % len(entries)], bool((k // 3 + ctx.seed) % 2))]
-        else:
-            combos = [(en, cm) for en in entries for cm in (False, True)]
-        for n, (en, cm) in enumerate(combos):
-            if c["nac"] != "none" and en in ("hcp", "bcc"):  # one species: no charges
-                en = "wz"
-            files = can_file and ((k + n) % (4 if ctx.quick else 3) == 0)
-            cases.append(dict(cfg=c, entry=en, comm=cm, files=files))
+    base = {}
+    for c in cfgs:
+        base.setdefault(json.dumps({k: v for k, v in c.items() if k != "fac"}, sort_keys=True), {})[c["fac"]] = c
+    facs = ["vasp", "cm", "x37"]
+    for k, key in enumerate(sorted(base)):
+        # quick: one unit conversion factor per configuration, rotating; thorough: the default and one other
+        pick = [facs[(k + ctx.seed) % 3]] if ctx.quick else ["vasp", facs[1 + (k + ctx.seed) % 2]]
+        for c in (base[key][f] for f in pick):
+            can_file = c["path"] in ("qpoints", "mesh", "band")
+            if ctx.quick:
+                combos = [(entries[(k + ctx.seed) % len(entries)], bool((k // 3 + ctx.seed) % 2))]
+            else:
+                combos = [(en, cm) for en in entries for cm in (False, True)]
+            for n, (en, cm) in enumerate(combos):
+                if c["nac"] != "none" and en in ("hcp", "bcc"):  # one species: no charges
+                    en = "wz"
+                files = can_file and ((k + n) % (4 if ctx.quick else 3) == 0)
+                cases.append(dict(cfg=c, entry=en, comm=cm, files=files))
     return cases
 
 
@@ -187,6 +193,8 @@ def class_tag(c):
             tag.append("decimals")
     if c["path"] == "band" and c["shape"] == "closed" and c["nac"] != "none":
         tag.append("closed-path+nac")
+    if c.get("fac", "vasp") != "vasp":
+        tag.append("non-default-factor")
     return "/".join(tag)
 
 
@@ -362,7 +370,9 @@ def start_history_drivers(ctx, hists, rundir):
     if ctx.quick:
         rng = __import__("random").Random(ctx.seed * 7919 + 14)
         long3 = rng.sample(long3, 40)
-    cases = [dict(entry="cscl", nac=n, hist=h) for n in ("none", "wang", "gl") for h in short + long3]
+    facs = ["vasp", "cm", "x37"]     # the unit conversion factor: fixed per object, rotating over the histories
+    cases = [dict(entry="cscl", nac=n, hist=h, fac=facs[(i + j + ctx.seed) % 3])
+             for j, n in enumerate(("none", "wang", "gl")) for i, h in enumerate(short + long3)]
     procs = []
     for n, var in enumerate(("omp", "serial")):
         plan = os.path.join(rundir, "hplan_%s.json" % var)
@@ -395,12 +405,12 @@ def history_validate(ctx, procs, stale):
     ctx.extra["history_drivers"] = info
     ctx.traces += len(events)
     for e in events:
-        ctx.count(("hist", e["nac"], e["omp"], json.dumps(e["hist"], sort_keys=True)))
+        ctx.count(("hist", e["nac"], e["fac"], e["omp"], json.dumps(e["hist"], sort_keys=True)))
     rundir = tlcmod.new_rundir("MC_QueryHistoryTrace")
     path = os.path.join(rundir, "events.ndjson")
     with open(path, "w") as f:
         for e in events:
-            f.write(json.dumps(dict(id=e["id"], nac=e["nac"], hist=e["hist"], reread=e["reread"],
+            f.write(json.dumps(dict(id=e["id"], nac=e["nac"], fac=e["fac"], hist=e["hist"], reread=e["reread"],
                                     obs=[dict(gvp=o["gvp"], fdir=o["fdir"], fresh=o["fresh"]) for o in e["obs"]])) + "\n")
     mc = ("---- MODULE MC_QueryHistoryTrace ----\nEXTENDS QueryHistoryTrace\nMCH == {}\nMCN == {}\nMCC == {}\n"
           "MCEventFile == \"%s\"\n====\n" % path)
